@@ -180,6 +180,77 @@ func applyGateway(obj, prev *proxyv1alpha1.UpstreamCluster) (out outcome, ok boo
 	return out, true
 }
 
+// otherCluster is the cluster that already exists when the objects are validated (the admission plugin's lister holds it, see
+// newAdmissionBed): its name and its server name are what the plugin's conflict check compares against.
+func otherCluster() *proxyv1alpha1.UpstreamCluster {
+	other := bed.BuildCluster(bed.ClusterSpec{Name: "other", Servers: []string{"https://127.0.0.1:1"}})
+	other.Spec.SecureServing.ServerNames = []string{"Taken.Example"}
+	return other
+}
+
+// stopMeters: harness cleanup. Deleting a cluster does not stop the per-schema meters of its limiter (they are only
+// stopped when a schema disappears from a live cluster); thousands of deleted clusters would leave their tickers behind.
+func stopMeters(gw *bed.Gateway, name string) func() {
+	ci, ok := gw.Cluster(name)
+	if !ok {
+		return func() {}
+	}
+	caches := ci.VerifLimiter().AllFlowControls()
+	return func() {
+		for _, c := range caches {
+			c := c
+			_ = safely(c.Stop)
+		}
+	}
+}
+
+// applyGatewayLifecycle drives the paths around the plain create: the object is created on a gateway that already holds
+// the cluster validation knew about (so the plugin's conflict check and the controller's must agree), delivered again
+// unchanged (resync / retry), deleted, and created again under the same name.
+func applyGatewayLifecycle(obj *proxyv1alpha1.UpstreamCluster) (outs []outcome, harness string) {
+	gw := lightGateway()
+	defer closeGateway(gw, obj)
+	if o := syncOutcome("gateway-create", gw.Apply(otherCluster())); !o.clean() {
+		return nil, "the pre-existing cluster 'other' did not apply: " + o.Kind + " " + o.Detail
+	}
+	step := func(consumer string, sr bed.SyncResult) bool {
+		o := syncOutcome(consumer, sr)
+		if o.Kind == "requeue" || o.Kind == "panic" {
+			if reason := probeReason(obj, nil); reason != "" {
+				o.Detail += "; cause: " + reason
+			} else if o.Kind == "requeue" {
+				// alone the object can be created: the controller's server-name conflict check refuses it next to 'other',
+				// although the admission plugin's conflict check accepted it against that same cluster
+				o.Detail += fmt.Sprintf("cause: server-name conflict with the existing cluster 'other' [Taken.Example]; object %q serverNames %q", obj.Name, obj.Spec.SecureServing.ServerNames)
+			}
+		}
+		outs = append(outs, o)
+		return o.clean()
+	}
+	if !step("gateway-create-beside-other", gw.Apply(obj)) {
+		return outs, ""
+	}
+	if _, ok := gw.Cluster(obj.Name); !ok {
+		outs = append(outs, outcome{"gateway-create-beside-other", "error", "sync returned success but the cluster is not registered under its name"})
+		return outs, ""
+	}
+	if !step("gateway-redeliver", gw.Apply(obj)) {
+		return outs, ""
+	}
+	cleanup := stopMeters(gw, obj.Name)
+	okDel := step("gateway-delete", gw.Delete(obj.Name))
+	cleanup()
+	if !okDel {
+		return outs, ""
+	}
+	if _, still := gw.Cluster(obj.Name); still {
+		outs = append(outs, outcome{"gateway-delete", "error", "the cluster is still registered after its deletion was synced"})
+		return outs, ""
+	}
+	step("gateway-recreate", gw.Apply(obj))
+	return outs, ""
+}
+
 // probeReason calls clusters.CreateClusterInfo / ClusterInfo.Sync the way the controller does and returns the error text.
 func probeReason(obj, prev *proxyv1alpha1.UpstreamCluster) (reason string) {
 	rec := safely(func() {
@@ -271,13 +342,21 @@ func limiterClient(ls *bed.LimiterServer, log *reportLog) gatewayclientset.Inter
 	return fc
 }
 
-const instance = "gw-c16"
+// instances: identities of reporting gateways (client ids come from host names and pids in production; ':' is replaced in
+// condition names by the limiter's own naming helper).
+var instances = []string{"gw-c16", "gw:1", "GW-Upper.Example", "gw/2%20x", "gw-ü", "gw-" + strings.Repeat("x", 250), "10.0.0.1:443", "[::1]:443"}
 
 // applyLimiter applies obj to a fresh real limiter server (create path, or update on top of prev), then sends one honest
 // report per global schema: allocate-strategy schemas through the gateway's own reconcile code
 // (remote.reconcile: buildLimitConditions -> UpdateStatus -> updateFlowControls, two rounds: first report without a quota,
 // second with the quota the server handed out), count-strategy schemas through one DoAcquire each.
 func applyLimiter(obj, prev *proxyv1alpha1.UpstreamCluster) (outs []outcome, reports int, ok bool) {
+	return applyLimiterAs(obj, prev, 0, false)
+}
+
+// applyLimiterAs: which selects the reporting instance identities; recreate = the upstream is deleted on the limiter and
+// applied again (same name) before the reports; a second instance reports after the first one.
+func applyLimiterAs(obj, prev *proxyv1alpha1.UpstreamCluster, which int, recreate bool) (outs []outcome, reports int, ok bool) {
 	ls := bed.NewLimiterServer(bed.LimiterOptions{LeadAll: true})
 	consumer := "limiter-create"
 	apply := func(o *proxyv1alpha1.UpstreamCluster) outcome {
@@ -302,7 +381,38 @@ func applyLimiter(obj, prev *proxyv1alpha1.UpstreamCluster) (outs []outcome, rep
 	if !o.clean() {
 		return outs, 0, true
 	}
+	if recreate {
+		var err error
+		rec := safely(func() { err = ls.DeleteUpstream(obj.Name) })
+		switch {
+		case rec != nil:
+			outs = append(outs, outcome{"limiter-delete", "panic", rec.Frame + ": " + rec.Value})
+			return outs, 0, true
+		case err != nil:
+			outs = append(outs, outcome{"limiter-delete", "error", err.Error()})
+			return outs, 0, true
+		}
+		consumer = "limiter-recreate"
+		o := apply(obj)
+		outs = append(outs, o)
+		if !o.clean() {
+			return outs, 0, true
+		}
+	}
+	nInst := 1
+	if recreate {
+		nInst = 2 // two gateways share the limits of the object
+	}
+	for i := 0; i < nInst; i++ {
+		o2, n := reportAs(ls, obj, instances[(which+i)%len(instances)], reports)
+		outs = append(outs, o2...)
+		reports += n
+	}
+	return outs, reports, true
+}
 
+// reportAs sends the honest reports of one gateway instance (see applyLimiter).
+func reportAs(ls *bed.LimiterServer, obj *proxyv1alpha1.UpstreamCluster, instance string, seq int) (outs []outcome, reports int) {
 	_ = ls.Limiter.Heartbeat(instance)
 	ctx, cancel := context.WithCancel(context.Background())
 	defer cancel()
@@ -334,7 +444,7 @@ func applyLimiter(obj, prev *proxyv1alpha1.UpstreamCluster) (outs []outcome, rep
 		case proxyv1alpha1.GlobalCountLimit:
 			req := &proxyv1alpha1.RateLimitAcquire{
 				ObjectMeta: metav1.ObjectMeta{Name: obj.Name},
-				Spec: proxyv1alpha1.RateLimitAcquireSpec{Instance: instance, RequestID: int64(reports + 1),
+				Spec: proxyv1alpha1.RateLimitAcquireSpec{Instance: instance, RequestID: int64(seq + reports + 1),
 					Requests: []proxyv1alpha1.RateLimitAcquireRequest{{FlowControl: s.Name, Tokens: 1}}},
 			}
 			var res *proxyv1alpha1.RateLimitAcquire
@@ -371,5 +481,5 @@ func applyLimiter(obj, prev *proxyv1alpha1.UpstreamCluster) (outs []outcome, rep
 		}
 		log.mu.Unlock()
 	}
-	return outs, reports, true
+	return outs, reports
 }
